@@ -360,6 +360,13 @@ class DomainManager(DomainManagerBase):
 
     def delete_link(self, name1, name2, *domain):
         super().delete_link(name1, name2, *domain)
+        if self.domain_matching_func != None:
+            # a cached manager may hold the same link through another matching domain: rebuild it from the links
+            domain_pattern = self._get_domain(*domain)
+            for domain_str in list(self.rm_map.keys()):
+                if match_error_handler(self.domain_matching_func, domain_str, domain_pattern):
+                    del self.rm_map[domain_str]
+            return
         for rm in self._affected_role_managers(*domain):
             rm.delete_link(name1, name2, *domain)
 
